@@ -202,7 +202,7 @@ func (self AnalyzedNoneLiteralExpression) Kind() ExpressionKind {
 func (self AnalyzedNoneLiteralExpression) Span() errors.Span { return self.Range }
 func (self AnalyzedNoneLiteralExpression) String() string    { return "none" }
 func (self AnalyzedNoneLiteralExpression) Type() Type {
-	return NewOptionType(NewAnyType(self.Span()), self.Span())
+	return NewOptionType(AnyType{Range: self.Span(), IsNonePlaceholder: true}, self.Span())
 }
 func (self AnalyzedNoneLiteralExpression) Constant() bool { return true }
 
